@@ -674,6 +674,11 @@ class DiscreteFourierTransformInverse(DiscreteFourierTransformBase):
         effort = flags[0] if flags else 'measure'
 
         direction = 'forward' if self.sign == '-' else 'backward'
+        if self.halfcomplex and x.ndim > 1:
+            # FFTW always destroys the input of a multi-dimensional
+            # halfcomplex-to-real transform
+            x = x.copy()
+
         if is_real_dtype(out.dtype) and not self.halfcomplex:
             # C2R without halfcomplex: the transform itself is C2C, the
             # real part of the result is returned (as in the Numpy backend)
